@@ -138,7 +138,7 @@ pub struct Delivered { pub round: usize, pub t_ms: u64, pub dg: usize }
 pub struct ApiCall { pub round: usize, pub t_ms: u64, pub act: Act, pub from_menu: bool, pub gen: usize }
 
 #[derive(Clone, Debug, Default)]
-pub struct EwObs { pub round: usize, pub t_ms: u64, pub c_active: Vec<bool>, pub c_exists: Vec<bool>, pub s_active: Vec<bool>, pub s_known: Vec<bool>, pub counts: (usize, usize), pub c_sbs: Vec<usize>, pub s_stepped: bool, pub c_stepped: Vec<bool>, pub s_probe: Vec<Option<Probe>>, pub c_probe: Vec<Option<Probe>> }
+pub struct EwObs { pub round: usize, pub t_ms: u64, pub c_active: Vec<bool>, pub c_exists: Vec<bool>, pub s_active: Vec<bool>, pub s_known: Vec<bool>, pub counts: (usize, usize), pub c_sbs: Vec<usize>, pub s_sbs: Vec<usize>, pub c_rtt: Vec<Option<f64>>, pub s_rtt: Vec<Option<f64>>, pub s_stepped: bool, pub c_stepped: Vec<bool>, pub s_probe: Vec<Option<Probe>>, pub c_probe: Vec<Option<Probe>> }
 
 #[derive(Default)]
 pub struct EwTrace {
@@ -353,6 +353,9 @@ pub fn run_ew(cfg: &EwCfg, script: &[EwOp], env: &EwEnv, ch: &mut Chooser) -> Ew
             let rc = srv.client(&caddr(i));
             ob.s_known.push(rc.is_some());
             ob.s_active.push(rc.map_or(false, |r| r.borrow().is_active()));
+            ob.s_sbs.push(rc.map_or(0, |r| r.borrow().send_buffer_size()));
+            ob.c_rtt.push(clients[i].as_ref().and_then(|c| c.rtt_s()));
+            ob.s_rtt.push(rc.and_then(|r| r.borrow().rtt_s()));
             ob.s_probe.push(rc.and_then(|r| r.borrow().verif_probe()));
         }
         ob.counts = srv.verif_counts();
@@ -396,7 +399,7 @@ pub fn ew_states(tr: &EwTrace) -> Vec<u64> {
         for (i, evs) in tr.sev.iter().enumerate() { while se[i] < evs.len() && evs[se[i]].round <= o.round { se[i] += 1; } h = fnv(h, se[i] as u64); if let Some(e) = evs[..se[i]].last() { h = fnv(h, ev_code(&e.ev)); } }
         for b in o.c_active.iter().chain(o.c_exists.iter()).chain(o.s_active.iter()).chain(o.s_known.iter()) { h = fnv(h, *b as u64); }
         h = fnv(h, o.counts.0 as u64); h = fnv(h, o.counts.1 as u64);
-        for s in o.c_sbs.iter() { h = fnv(h, *s as u64); }
+        for s in o.c_sbs.iter().chain(o.s_sbs.iter()) { h = fnv(h, *s as u64); }
         v.push(h);
     }
     v
@@ -427,6 +430,11 @@ pub fn print_ew(cfg: &EwCfg, tr: &EwTrace) {
         for (i, v) in tr.sev.iter().enumerate() { for e in v.iter().filter(|e| e.round == r) { line.push_str(&format!(" S[{}]:{}", i, ev_name(&e.ev))); } }
         let o = &tr.obs[r];
         if !line.is_empty() || r + 1 == tr.rounds { println!("r{:4} t={:7}ms |{} || c_active={:?} s_active={:?} counts={:?}", r, o.t_ms, line, o.c_active, o.s_active, o.counts); }
+        if std::env::var("VERIF_PROBES").is_ok() && r % 10 == 0 {
+            for (who, p) in o.c_probe.iter().map(|p| ("C", p)).chain(o.s_probe.iter().map(|p| ("S", p))) { if let Some(p) = p {
+                println!("        {} rate={:.0} credit={} rto={:?} resend={} pending={} sendq={} ackq={} txp {:x}..{:x} txf {:x}..{:x} log {:x}+{}", who, p.send_rate, p.flush_alloc, p.rto_ms, p.resend_len, p.pending_len, p.send_queue_len, p.ack_queue_len, p.tx_packet_base, p.tx_packet_next, p.tx_frame_base, p.tx_frame_next, p.tx_frame_log_base, p.tx_frame_log_len);
+            } }
+        }
     }
 }
 
